@@ -269,9 +269,18 @@ def value_kind(v, col):
     return None
 
 
+KIND_FILL = {'int': [1, 3], 'float': [2.0, -1.25], 'bool': [True, False],
+             'text': ['a', 'B1'],
+             'datetime': ['2000-01-01T00:00:00', '1999-12-31T23:59:59']}
+
+
 def filler(col, k=0):
-    """A value to put in an added row."""
+    """A value to put in an added row (of the kind the column holds, so that
+    no mixed-type object column is ever built)."""
     label = col[1]
+    if label == 'object' or label not in FAM:
+        vals = KIND_FILL[okind_of(col)]
+        return vals[k % len(vals)]
     if label in FAM:
         return FAM[label][2][k % len(FAM[label][2])]
     return None
